@@ -1282,6 +1282,10 @@ func ledgerEpoch(c *Ctx, mode string, nBlocks int, epoch int) {
 					break
 				}
 			}
+			if mode == "c01" && len(b.Txs) < len(txs) {
+				// some candidates were not included (refused as invalid, or skipped because the block is full)
+				l.discardTrace(b, parent, t, byHash, blockGas, k)
+			}
 			l.captureParent(b, miner)
 			if e := n.Insert(CloneBlock(b)); e != nil {
 				if os.Getenv("HX_DEBUG") != "" {
@@ -2022,6 +2026,57 @@ func (l *ledger) rebuildChecks(b *types.Block, cands types.Transactions, t uint3
 			c.Fail("c01/result-depends-on/"+what, fmt.Sprintf("block %d: re-mining gives %s instead of %s (txs %d vs %d, gas %d vs %d, logRoot equal=%v, versionRoot equal=%v)", b.Height(), b2.Hash().Hex()[:10], b.Hash().Hex()[:10], len(b2.Txs), len(b.Txs), b2.GasUsed(), b.GasUsed(), b2.LogRoot() == b.LogRoot(), b2.VersionRoot() == b.VersionRoot()), nil)
 		}
 		c.Count("c01:rebuilds")
+	}
+}
+
+// discardTrace: C07's clause "a transaction the miner discards leaves no trace at all", judged on the miner path itself
+// and BEFORE the validator sees the block: mining the same slot with only the txs that were included must give the very
+// same block (change logs, roots, gas) as mining it with the discarded candidates in the list.
+func (l *ledger) discardTrace(b *types.Block, parent *types.Block, t uint32, byHash map[common.Hash]*ledgerTx, blockGas uint64, minerKey *ecdsa.PrivateKey) {
+	c := l.c
+	var only types.Transactions
+	for _, tx := range b.Txs {
+		only = append(only, tx.Clone())
+	}
+	for i, tx := range only {
+		if tx.Type() == params.BoxTx {
+			id := byHashID(byHash, tx)
+			for _, lt := range byHash {
+				if lt.id == id {
+					only[i] = lt.orig.Clone()
+				}
+			}
+		}
+	}
+	b2, inv2, err := l.n.BuildGas(parent, t, only, minerKey, blockGas)
+	if err != nil {
+		c.Count("c07:discard-trace:rebuild-error")
+		return
+	}
+	c.Count("c07:discard-trace:blocks-with-discards-re-mined")
+	if len(inv2) != 0 || len(b2.Txs) != len(b.Txs) {
+		// every tx of `only` was executed successfully the first time, each fits the gas pool a fortiori now
+		c.Fail("c07/discard-leaves-trace/miner-selection", fmt.Sprintf("block %d: the miner included %d of %d candidates; offered only those %d, it includes %d and refuses %d",
+			b.Height(), len(b.Txs), len(byHash), len(b.Txs), len(b2.Txs), len(inv2)), nil)
+		return
+	}
+	if b2.LogRoot() != b.LogRoot() || b2.VersionRoot() != b.VersionRoot() || b2.GasUsed() != b.GasUsed() {
+		var diff string
+		for i := 0; i < len(b.ChangeLogs) || i < len(b2.ChangeLogs); i++ {
+			var x, y string
+			if i < len(b.ChangeLogs) {
+				x = b.ChangeLogs[i].String()
+			}
+			if i < len(b2.ChangeLogs) {
+				y = b2.ChangeLogs[i].String()
+			}
+			if x != y {
+				diff = fmt.Sprintf("first differing change log #%d: with discards %s / without %s", i, x, y)
+				break
+			}
+		}
+		c.Fail("c07/discard-leaves-trace/miner-block", fmt.Sprintf("block %d: the miner discarded %d candidate tx(s); mining the same slot with only the %d included txs gives another block (logRoot equal=%v, versionRoot equal=%v, gas %d vs %d, %d vs %d change logs); %s",
+			b.Height(), len(byHash)-len(b.Txs), len(b.Txs), b2.LogRoot() == b.LogRoot(), b2.VersionRoot() == b.VersionRoot(), b.GasUsed(), b2.GasUsed(), len(b.ChangeLogs), len(b2.ChangeLogs), diff), nil)
 	}
 }
 
